@@ -3,6 +3,7 @@ package hx
 import (
 	"errors"
 	"fmt"
+	"os"
 	"strings"
 	"testing"
 
@@ -479,6 +480,17 @@ func TestC04_MgrxRestart(t *testing.T) {
 			}
 			if got, want := voucherResultOf(t, log, rep), wantVoucherResult(out); got != want {
 				mfail(t, log, "C04/reply-voucher-result", "restart reply carries %s, validator returned %s", got, want)
+			}
+			if os.Getenv("VERIF_PROP") == "C11" {
+				// the same reply, read as the announcement of the responder's pause state to the initiator
+				stats.For("C11").Eval()
+				stats.For("C11").Class("restart_reply_announces_pause_state")
+				if before.RespPaused || wantStayPaused(out.Result, before) {
+					stats.For("C11").Nontrivial(stats.FP("restart-reply", before.RespPaused, wantStayPaused(out.Result, before), c.role))
+				}
+				if rep.IsPaused() != after.RespPaused {
+					mfail(t, log, "C11/restart-reply-announcement", "restart reply announces responder paused=%v but the responder records paused=%v", rep.IsPaused(), after.RespPaused)
+				}
 			}
 			if rep.IsPaused() != wantStayPaused(out.Result, before) {
 				mfail(t, log, "C04/reply-pause", "restart reply paused=%v, want %v", rep.IsPaused(), wantStayPaused(out.Result, before))
